@@ -100,6 +100,15 @@ CHECKS = {
               "segment at least once plus box sets and robust float cases.  Outside the lattice the claim is "
               "sampling only."),
         ref="DESIGN.md section 5 / C15"),
+    "C17": dict(
+        technique="sanitizer: Numba array-bounds instrumentation (NUMBA_BOUNDSCHECK=1) + three-way differential execution "
+                  "(bounds-checked / compiled / interpreted) + dispatcher vs py_func on array-layout variants",
+        text=("One seeded call list - all 47 @jit kernels on the C01/C02/C09 input classes and every public tm/Arm/SP entry "
+              "point that reaches a kernel, for every link/joint index - is executed in three processes (NUMBA_BOUNDSCHECK=1, "
+              "default JIT, NUMBA_DISABLE_JIT=1); any IndexError or any result difference above 1e-10 is a violation, fewer than "
+              "47 covered kernels is inconclusive.  In the JIT process each dispatcher is compared with its own py_func on "
+              "C-ordered, Fortran-ordered, sliced and integer-typed arguments.  Covers the calls made, nothing else."),
+        ref="DESIGN.md section 5 / C17"),
     "C18": dict(
         technique="runtime monitoring: one independent defining relation per helper, evaluated on generated poses",
         text=("Each helper named in the statement is run on 7e3 (quick) / 4.8e5 (thorough) generated cases (frames "
